@@ -102,8 +102,10 @@ package internal
 //@   ensures D1: err != nil ==> httpCode(err) == 400
 //@ func internal.ServeMultiStatus(w, ms) (err)
 //@   requires R1: w != nil && wstatus(w) == 0
+//@   ghostset servedMS : ms
 //@   ensures S1: wstatus(w) == 207
 //@   ensures S2: err != nil ==> fromEnv(err)
+//@   ensures S3: servedMS == ms
 //@ -- Prop.Decode is reflection plus the XML token decoder: assumed (T-xml). A missing element is a 404.
 //@ func internal.(*Prop).Decode(p, v) (err)
 //@   trusted T-xml
@@ -134,3 +136,10 @@ package internal
 //@   requires R1: c != nil && req != nil
 //@   allocates
 //@   ensures D1: err == nil ==> ms != nil
+
+//@ -- per-resource outcome inside a multi-status (C10, C11)
+//@ spec errStatus(e error) int = isHTTP(e) ? httpCode(e) : 500
+//@ func internal.NewErrorResponse(path, err) (resp)
+//@   requires R1: err != nil
+//@   ensures N1: resp != nil && fresh(resp) && len(resp.Hrefs) == 1 && resp.Hrefs[0].Path == path
+//@   ensures N2: resp.Status != nil && resp.Status.Code == errStatus(err) && len(resp.PropStats) == 0
